@@ -33,7 +33,7 @@ type gstate struct {
 	files   map[string]string
 	modes   map[string]int
 	dirs    map[string]bool
-	opaque  map[string]bool // symbolic links: anything touching them is unknown
+	opaque  map[string]string // symbolic links (path -> target): only `exists` looks through them, anything else is unknown
 	cwd     string
 	out     string
 	err     string
@@ -61,7 +61,7 @@ type evaluator struct {
 
 func newGState() *gstate {
 	return &gstate{files: map[string]string{}, modes: map[string]int{}, dirs: map[string]bool{absWork: true, absWork + "/.tmp": true},
-		opaque: map[string]bool{}, cwd: absWork, env: map[string]string{}}
+		opaque: map[string]string{}, cwd: absWork, env: map[string]string{}}
 }
 
 var simplePath = regexp.MustCompile(`^[a-zA-Z0-9_][a-zA-Z0-9_.\-]*(/[a-zA-Z0-9_][a-zA-Z0-9_.\-]*)*$`)
@@ -81,6 +81,40 @@ func (g *gstate) abs(p string) (string, bool) {
 		return q, !g.touchesOpaque(q)
 	}
 	return "", false
+}
+
+// absOrLink is abs, but a path that IS a symbolic link (not one that goes through a link) is allowed
+func (g *gstate) absOrLink(p string) (string, bool) {
+	var q string
+	switch {
+	case strings.HasPrefix(p, absWork+"/") && simplePath.MatchString(p[len(absWork)+1:]):
+		q = p
+	case simplePath.MatchString(p):
+		q = g.cwd + "/" + p
+	default:
+		return g.abs(p)
+	}
+	if _, isLink := g.opaque[q]; isLink {
+		return q, true
+	}
+	return g.abs(p)
+}
+
+// linkTarget: the evaluator's path of what the link at p points to (one level, simple targets)
+func (g *gstate) linkTarget(p, target string) (string, bool) {
+	var q string
+	switch {
+	case target == absWork || strings.HasPrefix(target, absWork+"/") && simplePath.MatchString(target[len(absWork)+1:]):
+		q = target
+	case simplePath.MatchString(target):
+		q = parentOf(p) + "/" + target
+	default:
+		return "", false
+	}
+	if g.touchesOpaque(q) {
+		return "", false
+	}
+	return q, true
 }
 
 func (g *gstate) touchesOpaque(p string) bool {
@@ -144,6 +178,11 @@ func (g *gstate) removeTree(p string) {
 	for d := range g.dirs {
 		if d == p || strings.HasPrefix(d, p+"/") {
 			delete(g.dirs, d)
+		}
+	}
+	for o := range g.opaque {
+		if strings.HasPrefix(o, p+"/") {
+			delete(g.opaque, o)
 		}
 	}
 }
@@ -374,9 +413,17 @@ func (ev *evaluator) evalLine(line string) lineRes {
 			return rFail
 		}
 		for _, a := range args {
-			p, ok := g.abs(a)
+			p, ok := g.absOrLink(a)
 			if !ok {
 				return rUnknown
+			}
+			// exists uses Stat: a symbolic link stands for what it points to
+			if tg, isLink := g.opaque[p]; isLink {
+				q, ok := g.linkTarget(p, tg)
+				if !ok {
+					return rUnknown
+				}
+				p = q
 			}
 			ex := g.exists(p)
 			if ex && neg || !ex && !neg {
@@ -491,6 +538,9 @@ func (ev *evaluator) evalLine(line string) lineRes {
 			}
 			data, mode, srcBase = d, g.modes[src], baseOf(src)
 		}
+		if data == unpredicted && !strings.HasPrefix(baseOf(dst), "zz_") {
+			return rUnknown // only the epilogue's dumps may hold output that is not predicted
+		}
 		if g.dirs[dst] {
 			dst = dst + "/" + srcBase
 			if g.touchesOpaque(dst) {
@@ -532,6 +582,9 @@ func (ev *evaluator) evalLine(line string) lineRes {
 			}
 			t1 = d
 		}
+		if t1 == unpredicted {
+			return rUnknown
+		}
 		p2, ok := g.abs(args[1])
 		if !ok {
 			return rUnknown
@@ -569,6 +622,9 @@ func (ev *evaluator) evalLine(line string) lineRes {
 	case "stdin":
 		if len(args) != 1 {
 			return rFail
+		}
+		if args[0] == "stdout" && g.out == unpredicted {
+			return rUnknown
 		}
 		switch args[0] {
 		case "stdout":
@@ -620,7 +676,7 @@ func (ev *evaluator) evalLine(line string) lineRes {
 		if args[2] == "" {
 			return rUnknown
 		}
-		g.opaque[p] = true
+		g.opaque[p] = args[2]
 		return rOK
 	case "stop":
 		if len(args) > 1 {
